@@ -66,6 +66,24 @@ def run(ctx, rep):
     if m:
         e, it = m
         mt = tables.first_match(it["body"])
+
+        def seq_rows(mt_):
+            return len([1 for (p, b, g, ln) in tables.rows(mt_["arms"]) if p[0] == "seq"]) if mt_ else 0
+        if seq_rows(mt) < len(variants) // 2:
+            # the byte table may live in a private helper of Track that read_options calls: follow calls by name
+            from astq import find_nodes
+            names_called = set()
+            for n in find_nodes(it["body"], lambda n: n.get("k") in ("Call", "MethodCall", "Path")):
+                pth = n.get("path") or (n.get("func") or {}).get("path") or n.get("method") or ""
+                if isinstance(pth, str) and pth:
+                    names_called.add(pth.split("::")[-1])
+            for nm in sorted(names_called):
+                for (e2, it2) in ctx.ast.method("Track", nm, crate="insim_core"):
+                    mt2 = tables.first_match(it2["body"])
+                    if seq_rows(mt2) >= len(variants) // 2:
+                        e, it, mt = e2, it2, mt2
+                        rep.fn("insim_core::track::Track::%s" % nm)
+                        rep.notes.append("R14.2: reader table found in helper Track::%s called from read_options" % nm)
         seen = {}
         catch_all_err = False
         for (p, b, g, ln) in tables.rows(mt["arms"]) if mt else []:
